@@ -11,6 +11,9 @@ import (
 // as concurrent goroutines on one fresh real bus with no gates; the interleaving is whatever the Go scheduler
 // produces (perturbed by seeded Gosched/short sleeps).  The loop trace points give the linearization order.
 func runConc(seed int64, run int, size string, timeout time.Duration) ([]Line, bool, error) {
+	if size == "lag" {
+		return runLag(seed, run, timeout)
+	}
 	rng := rand.New(rand.NewSource(seed*100003 + int64(run)))
 	nPub, perPub, maxSubs, nMgr := 2+rng.Intn(2), 2+rng.Intn(3), 5, 2
 	if size == "big" {
